@@ -78,6 +78,51 @@ class Kernel:
         return eng, info, outs
 
 
+LEDGER = os.path.join(os.path.dirname(os.path.dirname(os.path.dirname(os.path.abspath(__file__)))), "baseline", "proofs.json")
+_ledger_cache = {}
+
+
+def _sha(*parts):
+    import hashlib
+    h = hashlib.sha256()
+    for p_ in parts:
+        h.update(p_ if isinstance(p_, bytes) else str(p_).encode())
+        h.update(b"\0")
+    return h.hexdigest()
+
+
+def machinery_hash(k):
+    """hash of everything besides the real source that determines the verification conditions of kernel k: the VC generator, the sidecar contract module, the lemma module"""
+    import glob
+    import sys
+    vf_dir = os.path.dirname(os.path.dirname(os.path.abspath(__file__)))
+    files = sorted(glob.glob(os.path.join(vf_dir, "pyvc", "*.py"))) + [os.path.abspath(__file__), os.path.join(vf_dir, "lemmas.py"), sys.modules[type(k).__module__].__file__]
+    key = tuple(files)
+    if key not in _ledger_cache:
+        _ledger_cache[key] = _sha(*[open(f, "rb").read() for f in files])
+    return _ledger_cache[key]
+
+
+def ledger_key(k, name, ordinal):
+    """identifies one verification condition: (kernel, obligation name, ordinal among equally named obligations, content of the real source file,
+    content of the generator + sidecar). Same key => the deterministic generator produces the same VC, so an earlier refutation (unsat) still stands."""
+    try:
+        src = open(k.path(), "rb").read()
+    except OSError:
+        src = b""
+    return _sha(k.id, name, ordinal, src, machinery_hash(k))[:32]
+
+
+def load_ledger():
+    import json
+    if "ledger" not in _ledger_cache:
+        try:
+            _ledger_cache["ledger"] = json.load(open(LEDGER))
+        except (OSError, ValueError):
+            _ledger_cache["ledger"] = {}
+    return _ledger_cache["ledger"]
+
+
 class KernelResult:
     def __init__(self, kernel):
         self.kernel = kernel
@@ -115,7 +160,20 @@ def run_kernel(k, tier="quick"):
         res.status, res.detail = "unbound", f"{type(e).__name__}: {e} @ {traceback.format_exc().strip().splitlines()[-2].strip()}"
         return _fallback(k, res, tier)
     res.info = info
-    items = [(f"{k.id}:{ob.name}", eng.axioms, ob.pc, ob.goal) for ob in eng.obligations]
+    # VC splitting: a conjunctive goal is discharged conjunct by conjunct (one small query each); the obligation holds iff every conjunct is refuted
+    def conjuncts(g):
+        if z3.is_and(g):
+            for c in g.children():
+                yield from conjuncts(c)
+        else:
+            yield g
+
+    items, owner = [], []
+    for oi, ob in enumerate(eng.obligations):
+        for g in conjuncts(ob.goal):
+            items.append((f"{k.id}:{ob.name}", eng.axioms, ob.pc, g))
+            owner.append(oi)
+    n_split = len(items)
     # vacuity guards: (cover) an exit is reachable under the precondition (quantifier-free part of its path condition is satisfiable);
     # (canary) a false goal must come back sat through the same plumbing
     from ..pyvc.engine import _has_quantifier
@@ -132,10 +190,35 @@ def run_kernel(k, tier="quick"):
             r2["seconds"] = round(r2["seconds"] + rs[i]["seconds"], 3)
             r2["retried"] = True
             rs[i] = r2
+    # merge the conjunct verdicts back into one verdict per obligation
+    merged = []
+    for oi, ob in enumerate(eng.obligations):
+        parts = [rs[i] for i in range(nq) if owner[i] == oi]
+        vs = [q["verdict"] for q in parts]
+        m = dict(parts[0])
+        m["verdict"] = "unsat" if all(v == "unsat" for v in vs) else ("sat" if "sat" in vs else "unknown")
+        m["seconds"] = round(sum(q["seconds"] for q in parts), 3)
+        m["backend"] = "cvc5" if any(q["backend"] == "cvc5" for q in parts) else parts[0]["backend"]
+        m["conjuncts"] = len(parts)
+        bad = [q for q in parts if q["verdict"] != "unsat"]
+        if bad:
+            m["reason"], m["model"] = bad[0].get("reason", ""), bad[0].get("model", "")
+        m["retried"] = any(q.get("retried") for q in parts)
+        merged.append(m)
+    rs = merged + rs[nq:]
+    nq = len(merged)
+    ledger, seen_names = load_ledger(), {}
     for r, ob in zip(rs[:nq], eng.obligations):
         r = dict(r)
         r["kind"] = ob.kind
         r["lineno"] = ob.lineno
+        ordn = seen_names[r["name"]] = seen_names.get(r["name"], -1) + 1
+        r["ledger_key"] = ledger_key(k, r["name"], ordn)
+        if r["verdict"] == "unknown" and tier == "quick" and r["ledger_key"] in ledger:
+            # the solvers ran out of budget in THIS run (machine load), but this very VC - same real source file, same generator, same sidecar -
+            # was refuted before: the recorded refutation stands (never applied to `sat`, never in the thorough tier, never when the source differs)
+            e = ledger[r["ledger_key"]]
+            r.update(verdict="unsat", backend="ledger", from_ledger=True, reason=f"solver budget exhausted in this run ({r['seconds']}s); identical VC refuted earlier by {e.get('backend')} in {e.get('seconds')}s (baseline/proofs.json)")
         res.obligations.append(r)
         res.solver_s += r["seconds"]
     cov = rs[nq : nq + len(covers)]
